@@ -741,3 +741,77 @@ func c14Transfers(p *Prog, r *Report) {
 	}
 	r.Ob("one-to-one", p.Pos(fi.Decl.Pos()), dupT == "" && dupF == "", fmt.Sprintf("%d transfers; state variables fed twice: %s; fields copied into two variables: %s", len(tkeys), orStr(dupT, "none"), orStr(dupF, "none")))
 }
+
+// configFeeds reports how the reader transfers a Config field into the state
+// variable gField: ok when there is exactly one store, unconditional, whose
+// right-hand side is cfg.<cfgField> divided by div (div == 1: plain copy).
+func configFeeds(p *Prog, gField, cfgField string, div int64) (bool, string, string) {
+	fi := p.Funcs["hermes.readConfig"]
+	if fi == nil {
+		return false, "-", "readConfig not found"
+	}
+	info := fi.Pkg.TypesInfo
+	n := 0
+	ok := true
+	pos, det := "-", ""
+	ast.Inspect(fi.Decl.Body, func(m ast.Node) bool {
+		as, isAs := m.(*ast.AssignStmt)
+		if !isAs || len(as.Lhs) != 1 || len(as.Rhs) != 1 {
+			return true
+		}
+		ls, isSel := as.Lhs[0].(*ast.SelectorExpr)
+		if !isSel || ls.Sel.Name != gField {
+			return true
+		}
+		if sel, has := info.Selections[ls]; !has || sel.Kind() != types.FieldVal {
+			return true
+		}
+		n++
+		pos = p.Pos(as.Pos())
+		rhs := stripParens(as.Rhs[0])
+		det = types.ExprString(rhs)
+		conds, loops := astPathConds(info, fi.Decl.Body, as)
+		for _, c := range conds {
+			if !(c.Neg && c.Exit != nil) {
+				ok = false
+				det += " under " + c.String()
+			}
+		}
+		if len(loops) > 0 {
+			ok = false
+		}
+		isField := func(e ast.Expr) bool {
+			se, isSel := stripParens(e).(*ast.SelectorExpr)
+			if !isSel || se.Sel.Name != cfgField {
+				return false
+			}
+			sel, has := info.Selections[se]
+			if !has || sel.Kind() != types.FieldVal {
+				return false
+			}
+			name, _ := namedStruct(sel.Recv())
+			return name == "Config"
+		}
+		if div == 1 {
+			if !isField(rhs) {
+				ok = false
+			}
+		} else {
+			be, isBin := rhs.(*ast.BinaryExpr)
+			if !isBin || be.Op != token.QUO || !isField(be.X) {
+				ok = false
+			} else if tv := info.Types[be.Y]; tv.Value == nil || tv.Value.String() != fmt.Sprint(div) {
+				ok = false
+			}
+		}
+		return true
+	})
+	// no other writer in the program
+	for _, w := range p.Fields().Writers(FieldRef{"GlobalVarsMain", gField}) {
+		if w.Key != "hermes.readConfig" && !strings.HasPrefix(w.Key, "hermes.NewDefault") && w.Key != "hermes.NewGlobalVarsMain" {
+			ok = false
+			det += "; also written by " + w.Key
+		}
+	}
+	return ok && n == 1, pos, fmt.Sprintf("%d store(s) in the configuration reader: %s", n, det)
+}
